@@ -50,7 +50,7 @@ S0 == [ H |-> H0,
         gone |-> {},          \* ids the host took: must never be dropped by the guest
         subs |-> Empty,       \* op -> [dealloc, own, lift, statuses, handle]
         subOfHandle |-> Empty,
-        deadlocked |-> FALSE, expectCabi |-> <<>>, lastCallOp |-> 0 - 1, lastNew |-> [r |-> 0, w |-> 0], mockTrap |-> "",
+        mockTrapLag |-> 0, deadlocked |-> FALSE, expectCabi |-> <<>>, lastCallOp |-> 0 - 1, lastNew |-> [r |-> 0, w |-> 0], mockTrap |-> "",
         bad |-> "" ]
 
 Bad(St, msg) == IF St.bad = "" THEN [St EXCEPT !.bad = msg] ELSE St
@@ -433,7 +433,7 @@ End(St, e) ==
     IN IF e.trap = "null" THEN St5 ELSE St5
 
 \* after the first trap / violation of a run nothing more is judged until the next run
-Dead(St) == St.mockTrap # "" \/ St.H.trap # "" \/ St.bad # "" \/ St.deadlocked
+Dead(St) == St.H.trap # "" \/ St.bad # "" \/ St.deadlocked
 
 Step(St, e) ==
     IF Dead(St) /\ e.ev # "reset" THEN St ELSE
@@ -442,7 +442,8 @@ Step(St, e) ==
       [] e.ev = "cb.exit" -> CbExit(St, e)
       [] e.ev = "decide" -> St
       [] e.ev = "NOTE" -> Note(St, e)
-      [] e.ev = "TRAP" -> [St EXCEPT !.mockTrap = e.msg]
+      [] e.ev = "TRAP" -> [St EXCEPT !.mockTrap = e.msg, !.mockTrapLag = 0]
+      [] e.ev = "LIVELOCK" -> Bad(St, "the run does not terminate: the runtime keeps calling built-ins without making progress (C22)")
       [] e.ev = "DEADLOCK" ->
             \* the user program deadlocked; a wakeup that was requested but never written is a C23 violation
             [Need(St, St.expectWake = 0, "deadlock after a sleeping task was woken without a wakeup write (C23)") EXCEPT !.deadlocked = TRUE]
@@ -495,12 +496,14 @@ Step(St, e) ==
       [] OTHER -> UserEv(St, e)
 
 TInit == l = 1 /\ S = S0
-TNext == l <= Len(Rec) /\ l' = l + 1 /\ S' = Step(S, Rec[l])
+TNext == /\ l <= Len(Rec) /\ l' = l + 1
+         /\ S' = LET St1 == Step(S, Rec[l]) IN
+                 IF St1.mockTrap # "" /\ Rec[l].ev \notin {"TRAP", "reset", "decide", "host.transfer", "NOTE"} THEN [St1 EXCEPT !.mockTrapLag = @ + 1] ELSE St1
 
 NoTrap == S.H.trap = "" \/ Print(<<"HOSTTRAP", ToJson([what |-> S.H.trap, at |-> l - 1, event |-> Rec[l - 1]])>>, FALSE)
 NoViolation == S.bad = "" \/ Print(<<"BREACH", ToJson([what |-> S.bad, at |-> l - 1, event |-> Rec[l - 1]])>>, FALSE)
 \* the mock host and the spec must agree on what traps
-MockAgrees == (S.mockTrap = "") \/ (S.H.trap # "") \/ (l <= Len(Rec) /\ l > 1 /\ Rec[l - 1].ev = "TRAP")
+MockAgrees == (S.mockTrap = "") \/ (S.H.trap # "") \/ S.mockTrapLag < 1
               \/ Print(<<"DRIFT", ToJson([mock |-> S.mockTrap, at |-> l - 1])>>, FALSE)
 
 Accepted ==
